@@ -27,7 +27,7 @@ func init() {
 			{Name: "a variable without a value inside a list literal is rendered as null although it has a default (reverts part of the F68 fix)", File: "v2/pkg/ast/ast_value.go", Rule: "C03-R14", Key: "Document.writeJSONValue/absent-variable-takes-its-default",
 				Old: "\t\t\tif defaultValue, hasDefault := d.variableDefaultValue(variableName); hasDefault {\n\t\t\t\treturn d.writeJSONValue(buf, defaultValue)\n\t\t\t}\n", New: ""},
 			{Name: "a variable's default is searched among the definitions of all operations of the document (reverts the F67 fix)", File: "v2/pkg/ast/ast_val_variable_value.go", Rule: "C03-R13", Key: "Document.GetVariableBooleanValue/variable-definitions-per-operation",
-				Old: "\t\tfor _, i := range d.OperationDefinitions[node.Ref].VariableDefinitions.Refs {\n", New: "\t\tfor i := range d.VariableDefinitions {\n"},
+				Old: "\t\tfor _, i := range d.OperationDefinitions[node.Ref].VariableDefinitions.Refs {\n\t\t\tdefinitionName := ", New: "\t\tfor i := range d.VariableDefinitions {\n\t\t\tdefinitionName := "},
 			{Name: "an extracted variable is reused when named type and outer nullability agree (seeded change C03-1)", File: "v2/pkg/astnormalization/variables_extraction.go", Rule: "C03-R11", Key: "variablesExtractionVisitor.extractedVariablesContainsKey/reuse-needs-deep-type-equality",
 				Old: "v.definition.TypesAreEqualDeep(typeRef, v.extractedVariableTypeRefs[i])", New: "v.definition.TypeIsNonNull(typeRef) == v.definition.TypeIsNonNull(v.extractedVariableTypeRefs[i]) && bytes.Equal(v.definition.ResolveTypeNameBytes(typeRef), v.definition.ResolveTypeNameBytes(v.extractedVariableTypeRefs[i]))"},
 			{Name: "deep type equality compares outer nullability, list depth and name (seeded change C03-22)", File: "v2/pkg/ast/ast_type.go", Rule: "C03-R12", Key: "Document.TypesAreEqualDeep/level-by-level",
